@@ -13,7 +13,7 @@ for path in sys.argv[1:]:
             print('skip (does not apply)', r['dir'], r['change']); continue
         confirmed = r.get('tests', '').startswith('358 passed') and r.get('demo_with_patch') not in (0, None) and r.get('demo_without') == 0
         prop = os.path.basename(r['dir'])
-        sid = prop + r['change'] + ('-w2' if 'mutout2' in r['dir'] else '-w3' if 'mutout4' in r['dir'] else '')
+        sid = prop + r['change'] + ('-w2' if 'mutout2' in r['dir'] else '-w3' if 'mutout4' in r['dir'] else '-w4' if 'mutout5' in r['dir'] else '-w5' if 'mutout6' in r['dir'] else '')
         if not confirmed:
             print('NOT CONFIRMED', sid, r.get('tests'), r.get('demo_with_patch'), r.get('demo_without')); continue
         d = os.path.join(HERE, 'seeded', sid)
